@@ -196,6 +196,9 @@ inline Rational ratFromString(const char* desc)
          else
             res = Rational(desc);
 
+         if(denominator(res) == 0)
+            throw std::invalid_argument("rational number with zero denominator");
+
          // the conversion from a string does not reduce the fraction
          res = Rational(numerator(res), denominator(res));
       }
